@@ -14,6 +14,7 @@ import (
 	"math"
 	"math/big"
 	"os"
+	"rare/pkg/humanize"
 	"strconv"
 	"strings"
 	"time"
@@ -376,6 +377,19 @@ func (e *eng) judge(cs *Case, a []string, ex exp) bool {
 	}
 	if cerr != nil && !isMarker(out) {
 		return fail("compile-error", fmt.Sprintf("returned the documented result %s but Compile reported an error: %v", run.Q(out), cerr))
+	}
+	// bytesize, bytesizesi and downscale ARE a number format: what they return is defined by their documentation, not by
+	// the global --noformat switch of the number displays (humanize.Enabled), which the command line clears before compiling
+	if cs.Helper == "bytesize" || cs.Helper == "bytesizesi" || cs.Helper == "downscale" {
+		prev := humanize.Enabled
+		humanize.Enabled = false
+		out2, _, pan2, _, _ := e.eval(tmpl, ctx, cs.Mode != "noopt")
+		humanize.Enabled = prev
+		c.Count("comparisons", 1)
+		c.Count("cmp_noformat_independence", 1)
+		if !pan2 && out2 != out {
+			return fail("noformat", fmt.Sprintf("returned %s, but %s with number formatting switched off (--noformat); documented result: %s", run.Q(out), run.Q(out2), ex.desc))
+		}
 	}
 	return true
 }
